@@ -531,6 +531,14 @@ pub fn make(plan: &str, seed: u64, count: usize, tier: &str, wave: u64) -> (Vec<
                 s.cfg.user_ctx = ctx;
                 specs.push(s);
             }
+            // memoized rules on the cycle of a @leftrec rule (their failures against the growth seed are cached like any
+            // other result): left-recursive shapes with every non-@leftrec rule memoized
+            for s0 in leftrec_specs(seed, count / 8, wave, "l", &mut stats) {
+                let g2 = memo_variant(&s0.model, &mut |_| true);
+                let mut s = spec(s0.id.clone(), plan, add_probes(&g2));
+                s.role = "subset".into();
+                specs.push(s);
+            }
         }
         "include" => {
             let prof = prof_for("include", tier, wave).unwrap();
